@@ -297,6 +297,8 @@ def gen_case(rng, tier):
             for ns, p in row:
                 if rng.random() < .6:
                     r3 = F(rng.randint(-16, 16), 4)
+                    if rng.random() < .3:
+                        r3 = rng.choice([F(1, 10), F(1, 3), F(-7, 10), F(2, 7), F(-1, 3)])    # non-dyadic rewards
                     if r3 != 0:
                         m["reward"]["%s,%d" % (key, ns)] = str(r3)
             m["trans"][key] = row
@@ -337,7 +339,7 @@ def gen_case(rng, tier):
         keys = sorted(m["reward"])
         if rng.random() < .5:
             for k in rng.sample(keys, min(len(keys), 2)):
-                m["reward"][k] = str(rng.choice([1, -1]) * rng.choice([1000, 2 ** 20, 10 ** 6]))
+                m["reward"][k] = str(rng.choice([1, -1]) * rng.choice([1000, 2 ** 20, 10 ** 6, 10 ** 9, 10 ** 9 + 1000]))
         else:
             base = F(rng.randint(-3, 3))
             for k, d in zip(rng.sample(keys, min(len(keys), 2)), [F(1, 2 ** 30), -F(1, 2 ** 30)]):
@@ -345,7 +347,7 @@ def gen_case(rng, tier):
     # near-boundary initial probabilities (S0 keeps p > 0 however small)
     pos = [e for e in m["init"] if F(e[1]) > 0]
     if not (qv and qv["init_state"]) and len(pos) >= 2 and rng.random() < .12:
-        tiny = F(1, 2 ** 30)
+        tiny = F(1, 2 ** rng.choice([27, 30, 40]))
         rest = [e for e in m["init"] if F(e[1]) == 0]
         pos = pos[:2]
         pos[0][1], pos[1][1] = str(1 - tiny), str(tiny)
@@ -376,6 +378,51 @@ def gen_case(rng, tier):
                 a = rng.choice(m["actions"][s])
                 m["reward"]["%d,%d,%d" % (s, a, s)] = str(rng.choice([1, -1]) * F(1, 2 ** 30))
             m_boundary = kind
+    # corridor: n not a power of two, the last state n-1 steps from the start (reachability / Floyd-Warshall depth)
+    chain = False
+    if qv is None and not abs_out and not nondyadic and rng.random() < .05:
+        chain = True
+        n = rng.choice([6, 7, 9, 11])
+        nA = rng.randint(1, 2)
+        stay = rng.random() < .5
+        m.update({"n": n, "nA": nA, "actions": [list(range(nA)) for _ in range(n)], "trans": {}, "reward": {},
+                  "absorbing": [False] * (n - 1) + [rng.random() < .6], "init": [[0, "1"]]})
+        for s_ in range(n):
+            for a_ in range(nA):
+                nxt = min(s_ + 1, n - 1)
+                if a_ == 1:
+                    m["trans"]["%d,%d" % (s_, a_)] = [[s_, "1"]]
+                elif stay and nxt != s_:
+                    m["trans"]["%d,%d" % (s_, a_)] = [[nxt, "3/4"], [s_, "1/4"]]
+                else:
+                    m["trans"]["%d,%d" % (s_, a_)] = [[nxt, "1"]]
+                if nxt != s_ or a_ == 1:
+                    m["reward"]["%d,%d,%d" % (s_, a_, nxt if a_ == 0 else s_)] = "-1"
+        m["reward"].pop("%d,0,%d" % (n - 1, n - 1), None)
+        m_boundary = None
+    # a tiny positive probability (2^-27 .. 2^-60, below isclose's atol) that decides the answer: preferably the ONLY
+    # route into a state, optionally carrying a reward ~1/p
+    tiny_route = None
+    if qv is None and not chain and n >= 2 and rng.random() < .18:
+        reach_now = spec_reach({"mdp": m}, True)
+        rows = [k for k in sorted(m["trans"]) if int(k.split(",")[0]) in reach_now and not m["absorbing"][int(k.split(",")[0])]
+                and int(k.split(",")[1]) in m["actions"][int(k.split(",")[0])]]
+        if rows:
+            key = rng.choice(rows)
+            row = m["trans"][key]
+            outside = [t for t in range(n) if t not in reach_now]
+            cand = [t for t in (outside or range(n)) if t not in [x for x, _ in row]]
+            if cand:
+                t = rng.choice(cand)
+                kx = rng.choice([27, 30, 40, 60])
+                big = max(row, key=lambda e: F(e[1]))
+                if kx <= 40 and F(big[1]).denominator <= 8 and F(big[1]) > F(1, 8):
+                    big[1] = str(F(big[1]) - F(1, 2 ** kx))      # row still sums to 1 exactly
+                row.append([t, str(F(1, 2 ** kx))])               # (k = 60: the float row sum is 1.0 either way)
+                rng.shuffle(row)
+                if rng.random() < .5 and "reward_const" not in m:
+                    m["reward"]["%s,%d" % (key, t)] = str(rng.choice([1, -1]) * 2 ** kx)
+                tiny_route = kx
     # no action anywhere: empty action list, arrays of shape (n, 0, n)
     if qv is None and not abs_out and n <= 2 and rng.random() < .25:
         m["actions"] = [[] for _ in range(n)]
@@ -440,7 +487,18 @@ def gen_case(rng, tier):
         rng.shuffle(p)
         case["explicit_actions"] = p
     case["nondyadic"] = bool(nondyadic and qv is None)
+    case["tiny_route"], case["chain"] = tiny_route, chain
     float_exact(case)
+    # (4) shared mutable input objects, (6) integer-typed inputs and float32 / int arrays for from_matrices
+    case["share_objects"] = rng.random() < .35
+    case["int_rewards"] = rng.random() < .3
+    if case.get("raw"):
+        nums = [F(x) for x in case["raw"]["s0"]] + [F(x) for mm in case["raw"]["tf"] + case["raw"]["rf"] for r in mm for x in r]
+        f32 = all(x.denominator & (x.denominator - 1) == 0 and abs(x.numerator) < 2 ** 24 and x.denominator <= 2 ** 100 for x in nums)
+        ints = all(x.denominator == 1 for x in nums)
+        case["raw_dtype"] = rng.choice(["float64", "float64"] + (["float32"] if f32 else []) + (["int", "int"] if ints else []))
+    if rng.random() < .012:
+        case["big_chain"] = {"L": rng.randint(1000, 2000), "cutoffs": [rng.randint(0, 2200) for _ in range(2)]}
     return case
 
 
@@ -458,10 +516,21 @@ def float_exact(case):
             e[1] = fx(e[1])
     for e in m["init"]:
         e[1] = fx(e[1])
+    for k in m["reward"]:
+        m["reward"][k] = fx(m["reward"][k])
     raw = case.get("raw")
     if raw:
+        raw["rf"] = [[[fx(x) for x in r] for r in mm] for mm in raw["rf"]]
         raw["s0"] = [fx(x) for x in raw["s0"]]
         raw["tf"] = [[[fx(x) for x in r] for r in mm] for mm in raw["tf"]]
+
+
+def drop_tiny(case):
+    """the case with every probability below isclose's default atol (1e-8) removed"""
+    m = dict(case["mdp"])
+    m["trans"] = {k: [[ns, p] for ns, p in row if not (0 < F(p) < F(1, 10 ** 8))] for k, row in m["trans"].items()}
+    m["init"] = [[s_, p] for s_, p in m["init"] if not (0 < F(p) < F(1, 10 ** 8))]
+    return {"mdp": m}
 
 
 def spec_reach(case, expand_initial):
@@ -757,7 +826,11 @@ class Checker:
         """the exact value if the float v is within the dot-product rounding bound of it, else v itself"""
         P, R = orc["tf"][i][j], orc["rf"][i][j]
         terms = [(p, r) for p, r in zip(P, R) if r != 0 and p != 0]
-        if not any(p.denominator > 2 ** 40 for p, r in terms):
+        prods = [p * r for p, r in terms]
+        if not prods:
+            return v
+        den = max(t.denominator for t in prods)          # all dyadic: every product and partial sum is a multiple of 1/den
+        if sum(abs(t) for t in prods) * den < 2 ** 53:   # ... and fits a double: the float computation is exact, so must v be
             return v
         exact = sum(p * r for p, r in terms)
         bound = len(P) * F(1, 2 ** 52) * sum(abs(p * r) for p, r in terms)
@@ -943,6 +1016,26 @@ def check_case(ctx, case, res, val, stats):
                               "clause": "wrapping the functions in the quick constructor does not give identical arrays/lists"}, True)
         if qr.get("reach") != sorted(full_code):
             ck.report("C06:%s:reachable-differs" % tag, {"impl": qr.get("reach"), "expected": sorted(full_code)}, True)
+    if res.get("inputs_mutated") != []:
+        ck.report("C06:inputs-mutated", {"mutated": res.get("inputs_mutated"),
+                  "clause": "an object handed to msdm (distribution, action list, explicit list) was changed"}, True)
+    if "raw" in res and res.get("raw_inputs_mutated") not in ([], None):
+        ck.report("C06:raw:inputs-mutated", {"mutated": res.get("raw_inputs_mutated"),
+                  "clause": "from_matrices changed (or froze) the arrays / lists it was given"}, True)
+    lt = res.get("late", {})
+    for key2 in ("new_object", "first_object_again"):
+        if lt.get(key2) != o:
+            d = [k2 for k2 in o if lt.get(key2, {}).get(k2) != o[k2]]
+            ck.report("C06:late:%s:differs" % key2, {"differs_in": d, "first": {k2: o[k2] for k2 in d}, "late": {k2: lt.get(key2, {}).get(k2) for k2 in d},
+                      "clause": "the same problem gives different views when built/read again later in the process"}, True)
+    bc = res.get("big_chain")
+    if bc is not None:
+        L = case["big_chain"]["L"]
+        exp_cut_ok = isinstance(bc, dict) and "error" not in bc and all(
+            (min(k, 1) <= c <= L) and (c >= min(k, L) or c == L) for k, c in zip(case["big_chain"]["cutoffs"], bc.get("cut", [])))
+        if not exp_cut_ok or bc.get("full") != L or not bc.get("full_ok") or not bc.get("state_list_ok") or bc.get("action_list") != ["go", "run"]:
+            ck.report("C06:big-chain", {"impl": bc, "L": L}, True)
+        stats["big_chain"] += 1
     qu = res.get("quick_used")
     if qu is not None and qu != {k: v for k, v in res.get("quick", {}).items() if k != "reach"}:
         ck.report("C06:quick:wrapping-a-used-object-differs", {"wrapped_used": qu, "wrapped_fresh": res.get("quick"),
@@ -971,6 +1064,9 @@ def check_case(ctx, case, res, val, stats):
         if isinstance(sh, dict) or [norm(x) for x in sh] != [norm(x) for x in want]:
             ck.report("C06:plan:reused-planner-differs", {"shared": sh, "fresh": want,
                       "clause": "a ValueIteration object reused on a second MDP returns different results than a fresh one"}, True)
+        gs = pl.get("global_shared")
+        if gs is not None:
+            plan_same(ck, "process-wide-planner", po, gs, stats, "a ValueIteration object used on earlier, different MDPs returns different results than a fresh one")
         for tag in ("rebuilt", "quick"):
             pr = pl.get(tag)
             if pr is None:
@@ -1113,7 +1209,7 @@ def run(ctx):
     raw_vals = dict(zip(raw_idx, vals[len(terms):]))
     vals = vals[:len(terms)]
     stats = {k: 0 for k in ("reach_runs", "reach_replay_drift", "cutoff_binding", "absorbing_initial_expanded", "views", "round_trips",
-                            "quick_views", "raw_views", "plan_compared", "plan_skipped_different_lists", "plan_initial_value_rounding")}
+                            "quick_views", "raw_views", "big_chain", "plan_compared", "plan_skipped_different_lists", "plan_initial_value_rounding")}
     feats = {}
     distinct = set()
     nok = 0
@@ -1151,6 +1247,15 @@ def run(ctx):
              "cutoff_first": case["reach_order"][0] is not None, "cutoff_float": case["cutoff_float"],
              "actions_as_list": case["actions_as_list"], "native_distributions": case["dist_repr"] == "native",
              "fm_" + case["fm_lists"]: True,
+             "tiny_probability_route": case.get("tiny_route") is not None,
+             "tiny_probability_only_route": case.get("tiny_route") is not None and spec_reach(case, True) != spec_reach(drop_tiny(case), True),
+             "tiny_probability_2^-60": case.get("tiny_route") == 60,
+             "reward_ge_1e9": any(abs(F(r)) >= 10 ** 9 for r in case["mdp"]["reward"].values()),
+             "nondyadic_reward": any(F(r).denominator > 2 ** 40 for r in case["mdp"]["reward"].values()),
+             "corridor": bool(case.get("chain")), "n_states_eq_n_actions": case["mdp"]["n"] == case["mdp"]["nA"],
+             "one_state": case["mdp"]["n"] == 1, "one_action": case["mdp"]["nA"] == 1,
+             "shared_input_objects": bool(case.get("share_objects")), "int_rewards": bool(case.get("int_rewards")),
+             "raw_float32": case.get("raw_dtype") == "float32", "raw_int_arrays": case.get("raw_dtype") == "int",
              "raw_from_matrices": bool(case.get("raw")), "nondyadic_probabilities": bool(case.get("nondyadic")),
              "many_outcome_row": any(len(r) >= 8 for r in case["mdp"]["trans"].values()),
              "gamma_zero": F(case["mdp"]["gamma"]) == 0, "gamma_tiny": 0 < F(case["mdp"]["gamma"]) < F(1, 1000),
